@@ -2,6 +2,7 @@ import CoercionModel.Model.Builder
 import CoercionModel.Proofs.BuilderRef
 import CoercionModel.Model.SkeletonsMore
 import CoercionModel.Generated.F12
+import CoercionModel.Proofs.TranslatedBuilder
 set_option linter.unusedSimpArgs false
 /-
   C20 — Builder yields the described plan or a sticky first error; never panics.
@@ -205,5 +206,25 @@ set_option maxRecDepth 100000 in
 /-- the code this property's model mirrors still has the shape the model was written against (control-flow
     skeletons regenerated from /repo on every run, Model/SkeletonsMore) -/
 theorem facts_model_skeleton : Generated.F12.builder = SkeletonsMore.builder := by decide +kernel
+
+/-! ### translated code: the builder's methods, regenerated from builder.go on every run (Generated/T3.lean) -/
+
+theorem wf_hasBlock (s : B) (h : WF s) : TranslatedBuilder.HasBlock s := by
+  unfold WF at h
+  unfold TranslatedBuilder.HasBlock
+  cases hp : s.pos with
+  | none => trivial
+  | some p => cases p <;> simp_all
+
+/-- every chain method of the Go builder, translated, is the model's step for that call (AddChecks on every
+    well-formed state; the others on every state) — so the theorems above are about the code's own translation -/
+theorem translated_builder (s : B) (h : WF s) :
+    Generated.T3.up s = step s .up ∧ Generated.T3.plan s = step s .plan ∧
+    (∀ a, Generated.T3.addBlock s a = step s (.addBlock a)) ∧
+    (∀ q, Generated.T3.addSequence s q = step s (.addSequence q)) ∧
+    (∀ a, Generated.T3.addAction s a = step s (.addAction a)) ∧
+    (∀ k c, Generated.T3.addChecks s k (c.map (·.1)) ((c.map (·.2)).getD false) = step s (.addChecks k c)) :=
+  ⟨TranslatedBuilder.up_eq s, TranslatedBuilder.plan_eq s, TranslatedBuilder.addBlock_eq s, TranslatedBuilder.addSequence_eq s,
+   TranslatedBuilder.addAction_eq s, fun k c => TranslatedBuilder.addChecks_eq s k c (wf_hasBlock s h)⟩
 
 end Coercion.C20
